@@ -396,6 +396,30 @@ var childMu sync.Mutex
 // runChild re-executes this binary (or bin) as `--child mode args...`.
 // Output goes to a file; a watchdog sends SIGQUIT (goroutine dump) on expiry.
 func runChild(bin string, mode string, args []string, env []string, watchdog time.Duration) childResult {
+	return runChildOpt(bin, mode, args, env, watchdog, false)
+}
+
+// runChildPipe captures the output through a pipe instead of a file (needed when the child lowers
+// RLIMIT_FSIZE, which would otherwise truncate its own log).
+func runChildPipe(bin string, mode string, args []string, env []string, watchdog time.Duration) childResult {
+	return runChildOpt(bin, mode, args, env, watchdog, true)
+}
+
+type lockedBuf struct {
+	mu sync.Mutex
+	b  bytes.Buffer
+}
+
+func (l *lockedBuf) Write(p []byte) (int, error) {
+	l.mu.Lock()
+	defer l.mu.Unlock()
+	if l.b.Len() < 4<<20 {
+		l.b.Write(p)
+	}
+	return len(p), nil
+}
+
+func runChildOpt(bin string, mode string, args []string, env []string, watchdog time.Duration, pipe bool) childResult {
 	if bin == "" {
 		bin = os.Args[0]
 	}
@@ -409,8 +433,14 @@ func runChild(bin string, mode string, args []string, env []string, watchdog tim
 		panic(err)
 	}
 	cmd := exec.Command(bin, append([]string{"--child", mode}, args...)...)
-	cmd.Stdout = f
-	cmd.Stderr = f
+	var pbuf lockedBuf
+	if pipe {
+		cmd.Stdout = &pbuf
+		cmd.Stderr = &pbuf
+	} else {
+		cmd.Stdout = f
+		cmd.Stderr = f
+	}
 	cmd.Env = append(os.Environ(), env...)
 	cmd.SysProcAttr = &syscall.SysProcAttr{Setpgid: true}
 	res := childResult{}
@@ -438,6 +468,9 @@ func runChild(bin string, mode string, args []string, env []string, watchdog tim
 	f.Close()
 	b, _ := os.ReadFile(logPath)
 	os.Remove(logPath)
+	if pipe {
+		b = pbuf.b.Bytes()
+	}
 	if len(b) > 1<<20 {
 		b = append(b[:1<<19], append([]byte("\n...[truncated]...\n"), b[len(b)-(1<<19):]...)...)
 	}
